@@ -93,6 +93,9 @@ PW = "aw_datastore/storages/peewee.py"
 ME = "aw_datastore/storages/memory.py"
 DS = "aw_datastore/datastore.py"
 VARIANTS = [
+    ("B Bucket.get defaults to a limit of 10000", "aw_datastore/datastore.py", "        limit: int = -1,", "        limit: int = 10000,", "WRAP"),
+    ("B memory store keeps a sorted view per bucket", "aw_datastore/storages/memory.py", "        self._metadata: Dict[str, dict] = dict()\n", "        self._metadata: Dict[str, dict] = dict()\n        self._sorted: Dict[str, list] = {}\n", "DERIVED-STATE"),
+
     ("B memory stores a shallow copy (original defect)", ME, "            event = copy.deepcopy(event)\n            if self.db[bucket]:", "            event = copy.copy(event)\n            if self.db[bucket]:", "OWN-IN"),
     ("B memory returns the stored event (original defect)", ME, "            # Hand out a copy, the stored event must not be reachable by the caller\n            event = copy.deepcopy(event)\n", "", "OWN-OUT"),
     ("B memory get_events shallow list copy", ME, "        return copy.deepcopy(events)", "        return list(events)", "OWN-OUT"),
